@@ -41,7 +41,7 @@ CHECKS = {
  "C19": dict(
   category="exploration",
   technique="runtime oracle: SearchCriteria.And and the server's SEARCH parser evaluated with an independent reference matcher on a 400-message universe that distinguishes every field; SEARCH commands sent in every key permutation through a real server with a recording stub backend",
-  text="A: all ordered pairs from a pool of several hundred criteria (every field, boundary values, unset bounds, NOT/OR trees, multi-field) checked for match(And(a,b),m) == match(a,m) && match(b,m) on every message, operand unchanged, in UTC and with every time in +09:00 / -05:00 / +05:30; And histories (an operand with spare slice capacity shared by several receivers that are refined afterwards: every result re-evaluated at the end); the saved-result marker '$' in the pool. B: 1..5-key SEARCH commands over a 56-key alphabet in all permutations, every third one with the key names in lower/mixed case; the recorded criteria must select exactly the conjunction of the keys; malformed sub-keys must not be dropped silently.",
+  text="A: all ordered pairs from a pool of several hundred criteria (every field, boundary values, unset bounds, NOT/OR trees, multi-field) checked for match(And(a,b),m) == match(a,m) && match(b,m) on every message, operand unchanged, in UTC and with every time in +09:00 / -05:00 / +05:30; And histories (an operand with spare slice capacity shared by several receivers that are refined afterwards: every result re-evaluated at the end); the saved-result marker '$' in the pool. B: 1..5-key SEARCH commands over a 56-key alphabet in all permutations, every third one with the key names in lower/mixed case; the recorded criteria must select exactly the conjunction of the keys; malformed sub-keys must not be dropped silently. C: on the real in-memory backend (24 messages over all subsets of three body words, six flag sets, five sizes), 2..4-key SEARCH / UID SEARCH commands over an 85-key alphabet (incl. NOT / OR over BODY, TEXT, headers, dates) in up to 6 key orders must return the intersection of what the same server returns for each key alone.",
   design_ref="DESIGN.md §3 C19",
   note="Trusts internal/ref/searchref (matcher + universe); dates all UTC; ModSeq outside the property."),
 
@@ -69,28 +69,28 @@ CHECKS = {
  "C17": dict(
   category="exploration",
   technique="runtime trace monitor with marker injection: raw client / scripted peer over the instrumented in-process connection deliver injected plaintext after the STARTTLS line under every two-write split, one write and byte-at-a-time, then run a real crypto/tls handshake; recording stub backend and unilateral-data callbacks as observers; race detector on",
-  text="Server: 12 injected command suffixes x all splits x InsecureAuth on/off: no backend call or response (plaintext or inside TLS) may carry a marker, bytes after the tagged OK must be TLS records; credential policy matrix {TLS configuration, none} x InsecureAuth x {plain, SASL, basic sessions} x 5 ways of presenting credentials (greeting and CAPABILITY must not offer, backend must not be reached on plaintext unless InsecureAuth; offered and accepted over STARTTLS and implicit TLS). Client: 12 injected response suffixes x all splits x OK/PREAUTH/BYE greetings: no callback, capability, state change or command completion from injected bytes; PREAUTH and BYE refused. Positive controls without injection must complete the handshake and carry LOGIN/NOOP over TLS.",
+  text="Server: 12 injected command suffixes x all splits x InsecureAuth on/off: no backend call or response (plaintext or inside TLS) may carry a marker, bytes after the tagged OK must be TLS records; credential policy matrix {TLS configuration, none} x InsecureAuth x {plain, SASL, basic sessions} x 5 ways of presenting credentials (greeting and CAPABILITY must not offer, backend must not be reached on plaintext unless InsecureAuth; offered and accepted over STARTTLS and implicit TLS). Client: 12 injected response suffixes x all splits x OK/PREAUTH/BYE greetings: no callback, capability, state change or command completion from injected bytes; PREAUTH and BYE refused. Positive controls without injection must complete the handshake and carry LOGIN/NOOP over TLS. OS transports: the credential policy again over a Unix-domain and a loopback TCP listener served by Server.Serve; DialStartTLS against a scripted loopback server that greets OK / PREAUTH (3 spellings), accepts STARTTLS and completes a real handshake (PREAUTH must be refused).",
   design_ref="DESIGN.md §3 C17",
   note="Dropping the early plaintext is accepted as well as feeding it to the handshake. Trusts crypto/tls."),
 
  "C10": dict(
   category="fault_enumeration",
   technique="runtime fault injection with virtual time: the instrumented in-process connection injects EOF / read error / stall / write error at every byte offset of live client<->server exchanges; per-call return tracking, goroutine census of package imapclient after Close, and a delivered-prefix oracle for 'success implies fully received completion'; race detector on",
-  text="17 scenarios covering every client command (12 against the real server + in-memory backend, 5 against a scripted server with unusual but valid transcripts: 40..70 items per FETCH, commands pipelined behind LOGOUT, 300 EXPUNGE responses with a slow consumer that calls State()/Mailbox(), unread BINARY sections) x every server->client offset x {EOF, reset, stall} and every client->server offset x {write error}. Liveness is decided in logical time: after the fault all I/O completes at once, read deadlines expire at once, a deadline-less stall is ended by Client.Close once the client is parked.",
+  text="18 scenarios covering every client command (12 against the real server + in-memory backend, 6 against a scripted server with unusual but valid transcripts: 40..70 items per FETCH, commands pipelined behind LOGOUT, 300 EXPUNGE responses with a slow consumer that calls State()/Mailbox(), unread BINARY sections, Move on a peer without MOVE = COPY+STORE+EXPUNGE whose success needs all three completions) x every server->client offset x {EOF, reset, stall} and every client->server offset x {write error}. Liveness is decided in logical time: after the fault all I/O completes at once, read deadlines expire at once, a deadline-less stall is ended by Client.Close once the client is parked.",
   design_ref="DESIGN.md §3 C10",
   note="Backstops of 25-30 s are orders of magnitude above the millisecond run time; the completion oracle is skipped for the STARTTLS scenario (ciphertext)."),
 
  "C11": dict(
   category="exploration",
   technique="runtime monitoring of a real client fed hostile byte streams: recover()-guarded accessor walk over every returned value, reader-panic detection, worker processes with a 64 MB stack bound and heap guard (fatal errors attributed to the logged current stream), deterministic allocation counters on scaling families; race detector on",
-  text="Targeted invariant probes (with and without pending commands), grammar-generated responses of every kind the client parses with boundary numbers, byte/token mutations, raw garbage, 16 scaling families (8x range of N), truncated-literal probes (19 buffered-string positions x announced sizes 64 MiB..2^63-1 with 3 octets sent: allocation must follow the bytes received), must-reject probes (overflowing numbers, over-deep nesting incl. message/rfc822 chains) and deep-nesting probes to 10^6 levels, each against a client with 20 pending commands of every kind. Decides: no reader or accessor panic, no fatal recursion, no zero/dynamic numbers delivered without error, no super-linear allocation per input byte.",
+  text="Targeted invariant probes (with and without pending commands), grammar-generated responses of every kind the client parses with boundary numbers, byte/token mutations, raw garbage, 16 scaling families (8x range of N), truncated-literal probes (19 buffered-string positions x announced sizes 64 MiB..2^63-1 with 3 octets sent: allocation must follow the bytes received), must-reject probes (overflowing numbers, over-deep nesting incl. message/rfc822 chains) and deep-nesting probes to 10^6 levels, each against a client with 20 pending commands of every kind; the STARTTLS entry point (NewStartTLS) with 8 spellings of the answer x 14 trailers in the same segment plus generated / random trailers. Decides: no reader or accessor panic, no fatal recursion, no zero/dynamic numbers delivered without error, no super-linear allocation per input byte.",
   design_ref="DESIGN.md §3 C11",
   note="CPU time is recorded nowhere as a verdict (allocation counters only); set-enumerating accessors are called only for spans <= 2*10^6; one known finding (ESEARCH span) is listed in known_findings.json."),
 
  "C12": dict(
   category="exploration",
   technique="runtime trace monitor: scripted conformant server on the instrumented in-process connection; after every scripted line the vconn park signal (reader blocked with nothing pending) is the barrier at which Client.State()/Mailbox() are compared with a reference interpretation of the transcript; per-command exactly-once completion, status and data accounting; race detector on",
-  text="Random sets of 2..6 unambiguous pipelined commands with random outcomes (OK with/without text, NO/BAD with/without codes), answered in random order-preserving interleavings with unilateral EXISTS/EXPUNGE/FLAGS/PERMANENTFLAGS in between; state sequences around SELECT OK/NO/BAD, [CLOSED], UNSELECT/CLOSE, LOGOUT; tagged refusal of a synchronising literal with another command in flight; FETCH with '*' sets; long-lived connections of 1500..4000 commands answered in the empty forms FLAGS () / LIST () / PERMANENTFLAGS (); every fifth script with the server's response names, status conditions and response-code names in lower or mixed case.",
+  text="Random sets of 2..6 unambiguous pipelined commands with random outcomes (OK with/without text, NO/BAD with/without codes), answered in random order-preserving interleavings with unilateral EXISTS/EXPUNGE/FLAGS/PERMANENTFLAGS in between; state sequences around SELECT OK/NO/BAD, [CLOSED], UNSELECT/CLOSE, LOGOUT; tagged refusal of a synchronising literal with another command in flight; FETCH with '*' sets; long-lived connections of 1500..4000 commands answered in the empty forms FLAGS () / LIST () / PERMANENTFLAGS (); every fifth script with the server's response names, status conditions and response-code names in lower or mixed case; STATUS under case variants of the mailbox name; every script under a watchdog (a client call that never returns is a violation with the goroutine dump).",
   design_ref="DESIGN.md §3 C12",
   note="During a SELECT in progress the client may report either the old mailbox unchanged or no mailbox. Trusts the reference interpreter in checks/c12."),
 
@@ -117,7 +117,7 @@ CHECKS = {
  "C03": dict(
   category="exploration",
   technique="runtime oracle at the client API boundary: a stub backend writes generated response plans through the real server's writer API, the real client decodes them over an in-process connection, and every Wait/Collect result is compared field-by-field (literals byte-for-byte, order preserved) with the plan under an explicit normalisation table; race detector on",
-  text="Sessions of 40..60 commands (plus long-lived sessions of 2500..6000 commands on one connection): FETCH over all attribute subsets with envelopes (NIL / empty / group address lists, 8-bit and quoted-special text), body structures nested to depth 3 with message/rfc822 and text parts and extension data, body and binary literals of sizes {0,1,2,100,4095,4096,4097,70000}, BINARY.SIZE; STATUS all items; LIST attributes / delimiters / CHILDINFO / OLDNAME / LIST-STATUS pairing; SEARCH vs ESEARCH; SELECT data incl. IMAP4rev2 LIST; APPENDUID; COPYUID tagged and untagged (MOVE and its COPY fallback); EXPUNGE streams; NAMESPACE; capabilities x 3 server configurations x {nothing, UTF8=ACCEPT, IMAP4rev2} enabled.",
+  text="Sessions of 40..60 commands (plus long-lived sessions of 2500..6000 commands on one connection): FETCH over all attribute subsets with envelopes (NIL / empty / group address lists, 8-bit and quoted-special text), body structures nested to depth 3 with message/rfc822 and text parts and extension data, body and binary literals of sizes {0,1,2,100,4095,4096,4097,70000}, BINARY.SIZE; STATUS all items; LIST attributes / delimiters / CHILDINFO / OLDNAME / LIST-STATUS pairing; SEARCH vs ESEARCH; SELECT data incl. IMAP4rev2 LIST; APPENDUID; COPYUID tagged and untagged (MOVE and its COPY fallback); EXPUNGE streams; a quarter of the fetches address the last message only through '*', 'n:*' or '*:n' with the message count tracked from the wire (EXISTS minus EXPUNGE, incl. those consumed by EXPUNGE / MOVE commands); NAMESPACE; capabilities x 3 server configurations x {nothing, UTF8=ACCEPT, IMAP4rev2} enabled.",
   design_ref="DESIGN.md §3 C03",
   note="Only data the wire format can carry is demanded (normalisation listed in the evidence assumptions); the server's encoder is the producer, so server-side encoding defects that the client happens to tolerate are seen only when the decoded value differs."),
  "C08": dict(
@@ -136,7 +136,7 @@ CHECKS = {
  "C14": dict(
   category="exploration",
   technique="Go race detector + Goodlock-style lock-order graph (instance level, gate-lock aware, sync.Mutex and sync.RWMutex incl. recursive read-lock detection) + per-command watchdog decided on two goroutine dumps, under stress workloads of concurrent sessions with schedule perturbation: seeded yields injected at every lock/unlock site of packages imapserver and imapmemserver by source-level instrumentation generated from the current tree (cmd/lockgen, go build -overlay), GOMAXPROCS varied",
-  text="Runs of 2..8 concurrently running sessions x 20..44 random commands over 2..3 shared mailboxes (COPY/MOVE in both directions, FETCH with literals, STORE, EXPUNGE, APPEND, SEARCH, LIST/LSUB with STATUS, CREATE/DELETE/RENAME/SUBSCRIBE of scratch and shared mailboxes, IDLE with DONE or abrupt disconnect, CLOSE) (LIST forms incl. empty and multiple patterns) in profiles mixed / copy-storm / namespace / stalled-idler (one session idles and stops reading while the others change its mailbox hundreds of times). Decides on the executions produced: every command gets its tagged reply, no lock-order cycle taken by different goroutines without a common gate (reported even if the run did not hang), zero deduplicated race reports with imapserver / imapmemserver frames, no panic in the server log.",
+  text="Runs of 2..8 concurrently running sessions x 20..44 random commands over 2..3 shared mailboxes (COPY/MOVE in both directions, FETCH with literals, STORE, EXPUNGE, APPEND, SEARCH, LIST/LSUB with STATUS, CREATE/DELETE/RENAME/SUBSCRIBE of scratch and shared mailboxes, IDLE with DONE or abrupt disconnect, CLOSE) (LIST forms incl. empty and multiple patterns) in profiles mixed / copy-storm / namespace / stalled-idler (one session idles and stops reading while the others change its mailbox hundreds of times). Server-lifecycle rounds: Serve on further listeners and Close racing with 0..3 running sessions (Close returns, every Serve returns once it did). Decides on the executions produced: every command gets its tagged reply, no lock-order cycle taken by different goroutines without a common gate (reported even if the run did not hang), zero deduplicated race reports with imapserver / imapmemserver frames, no panic in the server log.",
   design_ref="DESIGN.md §3 C14",
   note="Sees only the interleavings produced; evidence counts lock acquisitions, order edges, lock instances and distinct fingerprints. A watchdog expiry while server goroutines are still running is recorded as an inconclusive run, not a violation."),
 }
